@@ -131,3 +131,38 @@ func Entries(gs []G) map[string]int {
 	}
 	return out
 }
+
+// SettleStable is SettleExcept with a fast path: goroutines that are all blocked (not
+// running or runnable) and unchanged for stableFor are reported without waiting for
+// the whole grace period (a blocked goroutine that nobody can wake up stays).
+func SettleStable(baseline map[string]bool, grace, stableFor time.Duration) []G {
+	deadline := time.Now().Add(grace)
+	var lastKey string
+	var since time.Time
+	for {
+		var gs []G
+		key := ""
+		blocked := true
+		for _, g := range Library() {
+			if !baseline[g.ID] {
+				gs = append(gs, g)
+				key += g.ID + ","
+				if strings.HasPrefix(g.State, "running") || strings.HasPrefix(g.State, "runnable") || strings.HasPrefix(g.State, "sleep") || strings.HasPrefix(g.State, "syscall") {
+					blocked = false
+				}
+			}
+		}
+		if len(gs) == 0 {
+			return nil
+		}
+		if key != lastKey || !blocked {
+			lastKey, since = key, time.Now()
+		} else if time.Since(since) >= stableFor {
+			return gs
+		}
+		if time.Now().After(deadline) {
+			return SettleExcept(baseline, 0, stableFor)
+		}
+		time.Sleep(5 * time.Millisecond)
+	}
+}
